@@ -401,6 +401,17 @@ class C05(Engine):
                 "array_dims": "int\tg_a" + "[2]" * n + ";\n",
                 "string_concat": "char\t*g_s = " + "\"a\" " * n + ";\n",
             }
+            # runs of one-line comments at the very top of a file (banners, licence blocks): everything up to the first statement
+            # is what the 42-header rule looks at, in one regular-expression search
+            frame = "/* " + "*" * 74 + " */\n"
+            tops["frame_banner"] = frame * min(n, 400) + "int\tg_a;\n"
+            tops["by_banner"] = frame + "/*   By: a b */\n" * min(n, 400) + "int\tg_a;\n"
+            tops["fields_banner"] = frame + "".join(ln * 10 for ln in ("/* c */\n", "/*   By: a b */\n", "/*   Created: 1 2 by a */\n",
+                                                                  "/*   Updated: 1 2 by a */\n", "/* c */\n")) + "int\tg_a;\n"
+            from ..workload import header42
+            hdr = header42("nest.c").split("\n")
+            tops["header_unclosed_banner"] = "\n".join(hdr[:10]) + "\n" + "/* c */\n" * min(n, 400) + "int\tg_a;\n"
+            tops["header_twice_banner"] = "\n".join(hdr[:10]) + "\n" + "\n".join(hdr[:10]) + "\n" + frame * 30 + "int\tg_a;\n"
             m = n // 4          # these three are quadratic (or worse) in the code under test: a smaller n keeps the runs conclusive
             tops["ifdef_nest"] = "".join(f"#{' ' * min(k, 200)}ifdef A{k}\n" for k in range(m)) + "int\tg_a;\n" + "".join(f"#{' ' * min(m - 1 - k, 200)}endif\n" for k in range(m))
             tops["struct_nest"] = "".join(f"{tabs(k)}struct s_{k}\n{tabs(k)}{{\n" for k in range(m)) + f"{tabs(m)}int\ta;\n" + "".join(f"{tabs(m - 1 - k)}}}\tm{k};\n" for k in range(m))
